@@ -59,5 +59,11 @@ def constructed_inputs(ctx, wd, harness=None):
         for k, d in enumerate(dirty):
             p = os.path.join(wd, f"con-tex-{v}-{k}.nif")
             jobs.append((f"texprop/{v}/{k}", p, f"fs new:{v} texprop:{d.encode().hex()} loosechain:2 save:{p}:raw"))
+    # a second textures directory below the first one (only where the cleaner is idempotent on the pinned tree: not for the
+    # Oblivion-style versions, see the C19 known findings)
+    nested = ["Data\\Textures\\MyMod\\textures\\armor\\cuirass_d.dds", "c:/x/textures/a/Textures/b.dds"]
+    for k, d in enumerate(nested):
+        p = os.path.join(wd, f"con-tex2-fo3-{k}.nif")
+        jobs.append((f"texprop2/fo3/{k}", p, f"fs new:fo3 texprop:{d.encode().hex()} loosechain:1 save:{p}:raw"))
     out = C.run_lines_parallel(h, [j[2] for j in jobs])
     return [(l, p) for (l, p, _), o in zip(jobs, out) if all(x.startswith("ok") for x in o.split(" "))]
